@@ -41,3 +41,50 @@ def writeLines (p : WProblem) : List Str :=
     (writeBlock p.cellsHead p.cells ++ writeBlock p.surfHead p.surfaces ++ writeBlock p.dataHead p.data)
 
 end MontePyVerif.FileWrite
+
+namespace MontePyVerif.FileWrite
+open MontePyVerif.Spec.File
+
+/-! ## from the objects' formatted lines to cards
+
+`format_for_mcnp_input` of an object returns its leading comment cards (comments that stood before
+it in the file), then its first data line, then the rest.  For MCNP a comment card between two
+cards belongs to neither; the reader files it with the card whose first line precedes it.  So the
+leading comments of object i+1 are appended to the card of object i, and those of the first object
+of a block form the block's head. -/
+
+def leading (ls : List Str) : List Str := ls.takeWhile isCommentCard
+def afterLeading (ls : List Str) : List Str := ls.dropWhile isCommentCard
+
+/-- `objs`: the line lists of the objects of one block, in order (objects that print nothing are
+    dropped by the writer loop and here).  Returns the head comments and the cards.
+    One-pass fold; `acc` holds the cards newest first. -/
+def assembleAux : List (List Str) → List Str → List WCard → List Str × List WCard
+  | [], head, acc => (head, acc.reverse)
+  | o :: t, head, acc =>
+    match afterLeading o with
+    | [] =>
+      -- only comment cards (or nothing): they travel with the previous card, or with the head
+      (match acc with
+       | [] => assembleAux t (head ++ o) acc
+       | c :: cs => assembleAux t head ({ c with rest := c.rest ++ o } :: cs))
+    | f :: r =>
+      (match acc with
+       | [] => assembleAux t (head ++ leading o) [⟨f, r⟩]
+       | c :: cs => assembleAux t head (⟨f, r⟩ :: { c with rest := c.rest ++ leading o } :: cs))
+
+def assemble (objs : List (List Str)) : List Str × List WCard := assembleAux objs [] []
+
+/-- Boolean versions of the well-formedness predicates of `Props/C01Blocks.lean` (for the driver). -/
+def contOKb : Bool → List Str → Bool
+  | amp, [] => !amp
+  | amp, l :: t => !isBlankLine l &&
+      (if isCommentCard l then contOKb amp t
+       else (amp || isIndented l) && contOKb (startCard l).2 t)
+
+def cardOKb (c : WCard) : Bool :=
+  !isBlankLine c.first && !isCommentCard c.first && !isIndented c.first && contOKb (startCard c.first).2 c.rest
+
+def headOKb (h : List Str) : Bool := h.all (fun l => !isBlankLine l && isCommentCard l)
+
+end MontePyVerif.FileWrite
